@@ -15,6 +15,7 @@ func init() {
 			"(R-C03-INV) on every path of each writer the change of `used` equals the change of the sum of keyCosts (linear effect summaries over Z/2^64, compared syntactically after normalisation); " +
 			"(R-C03-ADDFRESH) sampledLFU.add is called only where updateIfHas(key) just returned false under the same policy lock, so the key is absent; " +
 			"(R-C03-ROOM) roomLeft(cost) = getMaxCost() - used - cost and Cap() = getMaxCost() - used; in defaultPolicy.Add the oversize rejection cuts every path to any accounting call, every evict.add(key,cost) is reached only across an edge on which a fresh roomLeft(cost) for the same cost is >= 0, and every `return _, true` passes exactly one evict.add; " +
+			"(R-C03-EXPINDEX) every map mutation is mirrored by exactly the matching expiry-index call, so the sweeper can release the cost of every expired key; " +
 			"(R-C03-COSTPLUMB) the cost the applier hands to the policy is i.Cost loaded after the two adjustments, whose guards and right-hand sides are the documented ones. " +
 			"NOT decided: termination of the eviction loop, int64 overflow for adversarial costs, UpdateMaxCost lowering MaxCost between the reads of one Add.",
 		Run: runC03,
@@ -115,9 +116,14 @@ func runC03(c *Ctx) {
 	L, P := c.L, c.P
 	L.Rule("R-C03-WRITERS", "sampledLFU.used and sampledLFU.keyCosts are written only by add, del, updateIfHas, clear (+ constructor)", 1)
 	L.Rule("R-C03-INV", "each writer preserves used == sum(keyCosts) on every path (linear effect summary)", 4)
-	L.Rule("R-C03-ADDFRESH", "every call of sampledLFU.add(key,cost) is reached only across the false edge of updateIfHas(key,..) for the same key, policy lock held throughout", 2)
+	L.Rule("R-C03-ADDFRESH", "every call of sampledLFU.add(key,cost) is reached only across the false edge of updateIfHas(key,..) for the same key, policy lock held throughout; add has no caller but defaultPolicy.Add; the applier admits only itemNew items", 6)
 	L.Rule("R-C03-ROOM", "roomLeft/Cap formulas; oversize test first; evict.add only behind a fresh room>=0 test for the same cost; exactly one add per admitting return", 6)
 	L.Rule("R-C03-COSTPLUMB", "applier passes i.Cost loaded after the Config.Cost and internal-cost adjustments with the documented guards", 3)
+
+	L.Rule("R-C03-EXPINDEX", "every map mutation is mirrored in the expiry index (exactly one matching em.add/update/del): an entry the index does not know is never swept, so its cost stays accounted after it expired and is no longer retrievable", 3)
+	expIndexRule(c, "R-C03-EXPINDEX")
+	addersRule(c, "R-C03-ADDFRESH")
+	applierArmsRule(c, "R-C03-ADDFRESH")
 
 	writers := map[string]bool{"sampledLFU.add": true, "sampledLFU.del": true, "sampledLFU.updateIfHas": true, "sampledLFU.clear": true, "newSampledLFU": true}
 	c.Group("R-C03-WRITERS", "sampledLFU.used/keyCosts", func() {
@@ -507,6 +513,22 @@ func runC03(c *Ctx) {
 				L.Fail("R-C03-COSTPLUMB", "Cache.processItems#internal", "internal item size is added even when IgnoreInternalCost is set (or the flag is not tested)", stB.Pos())
 			} else {
 				L.Ok("R-C03-COSTPLUMB", "Cache.processItems#internal", "i.Cost += itemSize exactly on the !ignoreInternalCost side", stB.Pos())
+			}
+		}
+		// order: the `i.Cost == 0` test (and so Config.Cost) is evaluated on the caller's cost, i.e. before itemSize is added
+		if stA != nil && stB != nil {
+			zeroTests := map[*ssa.BasicBlock]bool{}
+			for e := range edgesWhere(fn, tb, "eq("+costT+",c[0])", nil, true) {
+				zeroTests[e.From] = true
+			}
+			isZeroTest := func(in ssa.Instruction) bool {
+				_, isIf := in.(*ssa.If)
+				return isIf && zeroTests[in.Block()]
+			}
+			if r, path := reach(after(stB), func(in ssa.Instruction) bool { return isZeroTest(in) || in == ssa.Instruction(stA) }, isInstr(sel), nil); r != nil {
+				L.Fail("R-C03-COSTPLUMB", "Cache.processItems#order", "the `i.Cost == 0` test / Config.Cost assignment is reachable after `i.Cost += itemSize` for the same item (block path "+pathString(path)+"): the caller's zero cost is no longer visible, Config.Cost is never consulted", stB.Pos())
+			} else {
+				L.Ok("R-C03-COSTPLUMB", "Cache.processItems#order", "Config.Cost is decided on the caller's cost, before the internal size is added", stA.Pos())
 			}
 		}
 		// the policy gets i.Cost loaded after both adjustments, and on the !ignore side B is never skipped
